@@ -142,7 +142,7 @@ class IdMaker:
     def __init__(self, rng, style):
         self.rng = rng
         self.style = style
-        self.n = rng.randint(1, 50)
+        self.n = rng.randint(1, 50) if style != "num" else rng.choice([-1, -1, 0, rng.randint(1, 50)])
         self.used = set()
 
     def new(self, hap=False):
@@ -151,7 +151,7 @@ class IdMaker:
                 self.n += 1 if not hap else self.rng.randint(1, 900)
                 i = f"s{self.n}"
             elif self.style == "num":
-                self.n += self.rng.randint(1, 3)
+                self.n += self.rng.choice([1, 1, 1, 2, 3])
                 i = str(self.n)
             else:
                 i = "".join(self.rng.choice("abcdefgxyzNODE0123456789_.") for _ in range(self.rng.randint(2, 7)))
